@@ -3,6 +3,7 @@
    CategoricalBox (formulae/categorical.py).  Anything outside the supported set evaluates to
    [Err EUnsupported]; the harness counts such cases and does not compare them.  Definitions only. *)
 From Verif Require Import Base Tokens Lazy Coding Frame.
+From Verif Require Spline Poly.
 Local Close Scope Qc_scope.
 Local Close Scope Q_scope.
 Local Open Scope string_scope.
@@ -10,7 +11,9 @@ Local Open Scope string_scope.
 (* fitted parameters of stateful transforms, in evaluation order *)
 Inductive tparam :=
 | TPCenter (mean : cell)
-| TPScale (mean sd : cell).
+| TPScale (mean sd : cell)
+| TPBs (p : Spline.bs_params)
+| TPPoly (raw : bool) (degree : nat) (p : Poly.poly_params).
 
 Record ectx := ECtx {
   e_data : frame;
@@ -24,7 +27,7 @@ Definition builtin_value (name : string) : option pyval :=
   else if String.eqb name "Sum" then Some (PEncClass true)
   else None.
 
-Definition stateful_names : list string := ["center"; "scale"; "standardize"].
+Definition stateful_names : list string := ["center"; "scale"; "standardize"; "bs"; "poly"].
 Definition function_names : list string :=
   ["I"; "C"; "T"; "S"; "binary"; "B"; "offset"; "p"; "prop"; "proportion"; "Treatment"; "Sum"].
 
@@ -271,9 +274,81 @@ Definition call_function (cx : ectx) (name : string) (pos : list pyval) (kw : li
   else Err EUnsupported.
 
 (* stateful transforms: first call estimates and records the parameters, later calls reuse them *)
+Definition opt_int (v : pyval) : res (option Z) :=
+  match v with
+  | PNoneV => Ok None
+  | PNumber true q => Ok (Some (Qnum (this q)))
+  | _ => Err EUnsupported
+  end.
+Definition opt_num (v : pyval) : res (option Qc) :=
+  match v with PNoneV => Ok None | PNumber _ q => Ok (Some q) | _ => Err EUnsupported end.
+Definition qrows (rows : list (list Qc)) : pyval := PMatrix (map (map (fun q => Some q)) rows).
+
+(* bs(x, df, knots, degree, intercept, lower_bound, upper_bound) and poly(x, degree, raw):
+   Model/Spline.v and Model/Poly.v; explicit knot lists are outside the supported argument set *)
+Definition call_spline (cx : ectx) (name : string) (st : list tparam) (pos : list pyval)
+           (kw : list (string * pyval)) : res (pyval * list tparam * list tparam) :=
+  if String.eqb name "bs" then
+    let params := ["x"; "df"; "knots"; "degree"; "intercept"; "lower_bound"; "upper_bound"] in
+    if negb (check_kw params kw) then Err EType else
+    do b <- bind_args params pos kw;
+    match arg "x" b with
+    | PSeries _ xs =>
+        match all_some xs with
+        | None => Err EUnsupported
+        | Some l =>
+            if e_fit cx then
+              do df <- opt_int (arg "df" b);
+              do _k <- match arg "knots" b with PNoneV => Ok tt | _ => Err EUnsupported end;
+              do deg <- match assoc "degree" b with
+                        | None => Ok 3%Z
+                        | Some (PNumber true q) => Ok (Qnum (this q))
+                        | Some _ => Err EValue end;
+              do ic <- match assoc "intercept" b with
+                       | None => Ok false | Some (PBoolean x) => Ok x | Some _ => Err EUnsupported end;
+              do lo <- opt_num (arg "lower_bound" b);
+              do hi <- opt_num (arg "upper_bound" b);
+              do p <- Spline.bs_init l df None deg ic lo hi;
+              do rows <- Spline.bs_apply p l;
+              Ok (qrows rows, st, [TPBs p])
+            else match st with
+                 | TPBs p :: st' => do rows <- Spline.bs_apply p l; Ok (qrows rows, st', [])
+                 | _ => Err EAssert end
+        end
+    | _ => Err EUnsupported
+    end
+  else
+    let params := ["x"; "degree"; "raw"] in
+    if negb (check_kw params kw) then Err EType else
+    do b <- bind_args params pos kw;
+    match arg "x" b with
+    | PSeries _ xs =>
+        match all_some xs with
+        | None => Err EUnsupported
+        | Some l =>
+            if e_fit cx then
+              do deg <- match assoc "degree" b with
+                        | None => Ok 1%nat
+                        | Some (PNumber true q) =>
+                            if (0 <? Qnum (this q))%Z then Ok (Z.to_nat (Qnum (this q))) else Err EUnsupported
+                        | Some _ => Err EUnsupported end;
+              do raw <- match assoc "raw" b with
+                        | None => Ok false | Some (PBoolean x) => Ok x | Some _ => Err EUnsupported end;
+              let p := Poly.poly_fit l deg in
+              do rows <- Poly.poly_eval (e_sqrt cx) raw deg p l;
+              Ok (qrows rows, st, [TPPoly raw deg p])
+            else match st with
+                 | TPPoly raw deg p :: st' =>
+                     do rows <- Poly.poly_eval (e_sqrt cx) raw deg p l; Ok (qrows rows, st', [])
+                 | _ => Err EAssert end
+        end
+    | _ => Err EUnsupported
+    end.
+
 Definition call_stateful (cx : ectx) (name : string) (st : list tparam) (pos : list pyval)
            (kw : list (string * pyval)) : res (pyval * list tparam * list tparam) :=
   (* returns (value, remaining input state, parameters recorded by this call) *)
+  if String.eqb name "bs" || String.eqb name "poly" then call_spline cx name st pos kw else
   if negb (check_kw ["x"] kw) then Err EType else
   do b <- bind_args ["x"] pos kw;
   match arg "x" b with
